@@ -37,7 +37,7 @@ static String AS(const std::string& s) { return String(s.c_str()); }
 // ---------------------------------------------------------------------------------------------
 // INI: text construction and model
 
-static std::string ident(const std::string& s)
+static std::string ident(const std::string& s, size_t cap = 700)
 {
 	static const char* a = "abcdefghijklmnopqrstuvwxyzABCDEFGHIJKLMNOPQRSTUVWXYZ0123456789_";
 	std::string r;
@@ -49,8 +49,8 @@ static std::string ident(const std::string& s)
 		r = "k";
 	if (r[0] >= '0' && r[0] <= '9')
 		r[0] = (char)('a' + (r[0] - '0'));
-	if (r.size() > 60)
-		r.resize(60);
+	if (r.size() > cap)
+		r.resize(cap);
 	return r;
 }
 
@@ -379,8 +379,8 @@ static std::string csv_string(const std::string& s)
 		const char* a = r.empty() ? first : rest;
 		r += strchr(a, c) && c ? (char)c : a[c % strlen(a)];
 	}
-	if (r.size() > 200)
-		r.resize(200);
+	if (r.size() > 700)
+		r.resize(700);
 	return r;
 }
 
@@ -400,7 +400,7 @@ static Table csv_table(const vf::Case& c)
 			t.how = (int)(((o.i(0) % 3) + 3) % 3);
 			std::set<std::string> seen;
 			for (size_t i = 0; i < o.s.size() && i < 8; i++) {
-				std::string n = ident(o.s[i]);
+				std::string n = ident(o.s[i], 60);
 				if (n[0] == '_' )
 					n[0] = 'u';
 				while (seen.count(n))
@@ -637,6 +637,86 @@ static Gen<std::string> valuegen()
 	});
 }
 
+// lengths around the 255/256-byte buffer of the formatting helper (String::f builds the "[name]" header of a new section), and long
+static Gen<int> longlen()
+{
+	return gen::exec([]() {
+		int w = *vf::irange<int>(0, 9);
+		if (w < 6)
+			return *vf::irange<int>(248, 262);
+		if (w < 8)
+			return *gen::elementOf(std::vector<int>{251, 252, 253, 254, 255, 256, 257, 509, 510, 511, 512, 513});
+		return *vf::irange<int>(1, 600);
+	});
+}
+
+static Gen<std::string> longident()
+{
+	return gen::exec([]() {
+		static const char* a0 = "abcdefghijklmnopqrstuvwxyzABCDEFGHIJKLMNOPQRSTUVWXYZ_";
+		static const char* a = "abcdefghijklmnopqrstuvwxyzABCDEFGHIJKLMNOPQRSTUVWXYZ0123456789_";
+		int n = *longlen();
+		std::string s(1, a0[*vf::irange<int>(0, 52)]);
+		int k = *vf::irange<int>(0, 62);
+		for (int i = 1; i < n; i++)
+			s += a[(k + i * 7) % 63];
+		return s;
+	});
+}
+
+static Gen<std::string> valuegen();
+
+// small files; sets that create sections / keys / values whose lengths lie around the formatting buffer
+static Gen<vf::Case> inilonggen()
+{
+	return gen::exec([]() {
+		vf::Case c;
+		c.add(vf::Op("fmt", {*vf::irange<int>(0, 3) | (*gen::elementOf(std::vector<int>{0, 0, 1, 2}) << 2)}));
+		auto name = [](int longpct) { return *vf::irange<int>(0, 99) < longpct ? *longident() : *gen::elementOf(std::vector<std::string>{"a", "b", "key", "main", "net", "k"}); };
+		auto value = []() {
+			int w = *vf::irange<int>(0, 9);
+			if (w < 4)
+				return std::string((size_t)*longlen(), (char)('a' + *vf::irange<int>(0, 25)));
+			return *valuegen();
+		};
+		std::vector<std::string> secs;
+		int nlines = *vf::irange<int>(0, 5);
+		for (int i = 0; i < nlines; i++) {
+			int w = *vf::irange<int>(0, 9);
+			if (w < 3 || (i == 0 && w < 8)) {
+				vf::Op o("sec");
+				o.s = {name(40)};
+				secs.push_back(o.s[0]);
+				c.add(o);
+			}
+			else if (w < 8) {
+				vf::Op o("kv", {*vf::irange<int>(0, 3)});
+				o.s = {name(40), value()};
+				c.add(o);
+			}
+			else {
+				vf::Op o("com", {*vf::irange<int>(0, 3)});
+				o.s = {oneline(*valuegen())};
+				c.add(o);
+			}
+		}
+		int nsets = *vf::irange<int>(1, 5);
+		for (int i = 0; i < nsets; i++) {
+			vf::Op o("set", {0});
+			std::string s = (!secs.empty() && *vf::irange<int>(0, 3) == 0) ? *gen::elementOf(secs) : name(85);
+			o.s = {s, name(35), value()};
+			secs.push_back(s);
+			c.add(o);
+			int w = *vf::irange<int>(0, 9);
+			if (w == 0)
+				c.add(vf::Op("write"));
+			else if (w == 1)
+				c.add(vf::Op("reopen"));
+		}
+		return c;
+	});
+}
+
 static Gen<vf::Case> inigen()
 {
 	return gen::exec([]() {
@@ -728,7 +808,7 @@ static void classify_ini(const vf::Case& c)
 			secs.insert(it.sec);
 	}
 	int onexisting = 0, onnew = 0, newsec = 0, nset = 0;
-	bool explicitw = false, reopen = false;
+	bool explicitw = false, reopen = false, longshape = false;
 	for (const vf::Op& o : c.ops) {
 		if (o.name == "set") {
 			std::string s = o.str(0).empty() ? std::string() : ident(o.str(0)), k = ident(o.str(1));
@@ -737,11 +817,26 @@ static void classify_ini(const vf::Case& c)
 				onexisting++;
 			else {
 				onnew++;
-				if (!s.empty() && !secs.count(s))
+				if (!s.empty() && !secs.count(s)) {
 					newsec++;
+					if (s.size() >= 250 && s.size() <= 260)
+						st.cls("ini.new_section_name_250..260_chars");
+					if (s.size() == 253)
+						st.cls("ini.new_section_name_253_chars([name]=255)");
+					if (s.size() > 260)
+						st.cls("ini.new_section_name>260_chars");
+					longshape = true;
+				}
+				if (k.size() >= 245 && k.size() <= 262)
+					st.cls("ini.new_key_245..262_chars");
 				have.insert({s, k});
 				secs.insert(s);
 			}
+			size_t vl = value_of(o.str(2)).size();
+			if (vl >= 245 && vl <= 262)
+				st.cls("ini.set_value_245..262_chars");
+			if (k.size() + vl + 1 >= 250 && k.size() + vl + 1 <= 260)
+				st.cls("ini.set_line_key=value_250..260_chars");
 		}
 		else if (o.name == "write")
 			explicitw = true;
@@ -768,7 +863,12 @@ static void classify_ini(const vf::Case& c)
 		st.cls("ini.sets>=10");
 	if (t.text.empty())
 		st.cls("ini.empty_file");
-	if (t.nsec >= 2 && t.ncom >= 1 && onexisting >= 1 && onnew >= 1) {
+	bool longnew = false;
+	if (longshape)
+		for (const vf::Op& o : c.ops)
+			if (o.name == "set" && !o.str(0).empty() && ident(o.str(0)).size() >= 248)
+				longnew = true;
+	if ((t.nsec >= 2 && t.ncom >= 1 && onexisting >= 1 && onnew >= 1) || longnew) {
 		st.nt(vf::fnv(vf::serialize(c)));
 		if (t.text.size() < 120 && nset <= 3)
 			st.sample("ini: " + vf::show(t.text, 200) + " then " + std::to_string(nset) + " sets", 3);
@@ -786,6 +886,8 @@ static Gen<vf::Case> csvgen()
 			                                                 "a,\"b\",c", " ,", "\" \"", "';'", "a\"\"", "\"\"a"});
 		static const char* a = "abcdeXYZ ,;\"' ,;\"'019.-_";
 		int n = *vf::irange<int>(1, w < 17 ? 8 : 60);
+		if (w == 19 && *vf::irange<int>(0, 2) == 0)
+			n = *gen::oneOf(vf::irange<int>(248, 262), vf::irange<int>(1, 600)); // around the 255/256-byte formatting buffers, and long
 		std::string s;
 		for (int i = 0; i < n; i++)
 			s += a[*vf::irange<int>(0, (int)strlen(a) - 1)];
@@ -901,5 +1003,6 @@ static void classify_csv(const vf::Case& c)
 void vf_search(const vf::Args& a)
 {
 	[&]() { vf::check_cases("ini", a.n(2000, 10000), 100, inigen(), classify_ini); }();
+	[&]() { vf::check_cases("inilong", a.n(300, 3000), 100, inilonggen(), classify_ini); }();
 	[&]() { vf::check_cases("csv", a.n(2000, 10000), 100, csvgen(), classify_csv); }();
 }
